@@ -172,3 +172,26 @@ move=> sd S Q; split.
 - exact: (@kalman_S_revmx Rf sqrt Rltb R _ x0 xs dg (P_sym (Celerite_laws a b c d)) sd).
 Qed.
 Print Assumptions C03_builtin_kernels_kalman_solver.
+
+(* the same for SHO in each of its three regimes *)
+Theorem C03_SHO_kalman_solver (w q sigma : R) (x0 : R) (xs dg : seq R) :
+  sho_regime w q -> size dg = size xs ->
+  let k := k_SHO w q sigma in
+  kalman_S (size xs) (ssm k) (ssP k) (kalman_order (kal_A k x0 xs)) (rev (kal_H k x0 xs)) (rev (dg : seq Rf))
+  = revmx (den (size xs) (to_symm_qsm rfops k x0 xs) + Dm (size xs) (fun i => nth (0 : Rf) dg i)).
+Proof. move=> reg sd k; exact: (@kalman_S_revmx Rf sqrt Rltb R _ x0 xs dg (P_sym (SHO_laws sigma reg)) sd). Qed.
+Print Assumptions C03_SHO_kalman_solver.
+
+(* and for EVERY expression over the built-in kernels (sums, products, scalings; C10's syntax): what KalmanSolver factorises is the
+   matrix the quasiseparable solver factorises *)
+From TinyGP Require Import Theory.SSKExpr Theory.SSKExprR.
+Theorem C03_builtin_expression_kalman_solver (e : qexpr Rf R) (x0 : R) (xs dg : seq R) :
+  over_builtins e -> size dg = size xs ->
+  let k := compile sqrt Rltb e in
+  kalman_S (size xs) (ssm k) (ssP k) (kalman_order (kal_A k x0 xs)) (rev (kal_H k x0 xs)) (rev (dg : seq Rf))
+  = revmx (den (size xs) (to_symm_qsm rfops k x0 xs) + Dm (size xs) (fun i => nth (0 : Rf) dg i)).
+Proof.
+move=> ob sd k; have [L _] := builtin_expression_sound ob.
+exact: (@kalman_S_revmx Rf sqrt Rltb R _ x0 xs dg (P_sym L) sd).
+Qed.
+Print Assumptions C03_builtin_expression_kalman_solver.
